@@ -11,6 +11,8 @@ Decided structural clauses (that the manifest is right for every program is NOT 
   5 SCANNERS    each feature scanner walks every statement/expression kind that can contain the construct it looks
                 for (per-walker coverage + catch-all check) and looks at every decorator, not only the first
   6 TEMPLATE    the manifest template names package, binary/lib target, edition and an own [workspace]
+  7 SCANORDER   prepare_project reads the feature flags only after every scan_for_* has run
+  (DEPGUARD also: a crate is recorded as already declared only on paths that pushed its dependency line)
 """
 from engines import (fmt_pieces, AST, all_string_constants, arm_regions, backward_slice, bearing, blocks_dominated_by_edge,
                      body_and_closures, callee_generic, callee_name, const_str, field_is_bearing, fn_fmt_templates,
